@@ -80,6 +80,41 @@ CHECKS = {
             "strings are bounded char arrays over z3 Ints; functions are AST-instrumented at run time (f-strings, len/int/str, in, Enum[...]); "
             "open and orjson.loads stubbed; number fields without whitespace/'+'/'_'",
             "symbolic execution on bounded-string proxies (own engine) + z3 LIA", "5/C19"),
+    "C06": ("E2", MC,
+            "the input space (3 structures cut from 1ehz x gap detection x list of k<=3 base-pair entries over 4 residues + 1 absent residue, "
+            "3 LW classes, 3 Saenger options) is one z3 formula enumerated completely by AllSAT (cube-and-conquer); the real Mapping2D3D runs "
+            "on every model and an independent oracle checks numbering, matching, canonical-subset / kept-pair rules, per-strand text and "
+            "extended rows clause by clause",
+            "concretising mode: the solver contributes exhaustive duplicate-free coverage of the bounded input space, the real code runs natively; "
+            "MILP back-end replaced by the exact z3 stub; entries repeating a pair+class with different Saenger labels excluded",
+            "z3 AllSAT over the input formula + native execution with independent oracle", "5/C06"),
+    "C08": ("E2", MC,
+            "the real read_3d_structure/parse_pdb/parse_cif/filter_clashing_atoms/group_atoms run instrumented on PDB lines (independent emitter) "
+            "and atom_site rows whose identity fields, model numbers and null-marker cells are bounded symbolic strings / ints; a reference reader "
+            "runs on the same proxies in the same path; atom sets and residue fields are compared by z3. Partial: text / record layer",
+            "names, coordinates and occupancies come from concrete tables (float() of symbolic text is not modelled); scipy KD-tree runs natively; "
+            "mmcif tokenizer stubbed at the atom_site table",
+            "symbolic execution on bounded-string proxies (own engine) + z3", "5/C08"),
+    "C09": ("E2", MC,
+            "symbolic atom fields go through the real parse_pdb_atoms, write_pdb/_format_pdb_atom_line, write_cif row mapping and parse_cif_atoms; "
+            "per path z3 decides: fields read == fields written, every ATOM/HETATM/TER line is 80 columns with each slice equal to its field, "
+            "MODEL/ENDMDL around every model and TER after every chain, and the cross paths keep every field. Partial: text / record layer",
+            "pandas replaced by a record-level stand-in and io.StringIO / IoAdapterPy by stubs (their contracts are assumptions); numeric text from "
+            "boundary tables; a chain's last atom never has serial 99999 (the TER serial would not fit)",
+            "symbolic execution on bounded-string proxies (own engine) + z3", "5/C09"),
+    "C15": ("E2", MC,
+            "one symbolic ATOM/HETATM line through parser.parse_pdb and parser_v2.parse_pdb_atoms, one atom_site row through parser.parse_cif and "
+            "parser_v2.parse_cif_atoms: per path z3 decides that chain, number, insertion code, names, coordinates and model agree; both "
+            "is_connected implementations on the same symbolic O3'/P coordinates equal distance < 2.4 A. Partial",
+            "pandas stand-in, adapter stub; residue grouping by pandas groupby and torsion magnitudes (C18) outside; chain ids non-blank",
+            "symbolic execution on bounded-string / real proxies (own engine) + z3", "5/C15"),
+    "C20": ("E2", MC,
+            "copy_from_to / replace_value run on real mmcif DataContainer/DataCategory objects whose cells are bounded symbolic strings (adapter "
+            "stubbed); per explored equality pattern z3 decides that only the target item changed, target == source (copy) or the first-seen "
+            "injective image equal to the returned mapping (replace), absent category/source leaves the text untouched, also after earlier "
+            "edits of the same content; main() runs on a fake file system against the library result for the file's content",
+            "data-model level: the mmcif tokenizer/writer are outside; at most as many distinct values as substitution characters",
+            "symbolic execution on bounded-string proxies (own engine) + z3", "5/C20"),
     "C16": ("E1+E3", MC,
             "for every pairing table up to N positions (CrossHair) and the AllSAT families, the real all_dot_brackets list is compared with the "
             "Grundy specification by z3: each member satisfies spec (sat under its assignment), and the completeness query 'spec(a) and a differs "
